@@ -15,8 +15,8 @@ with one action per critical section; external events (other processes writing
     laws (no lost wake-up, nobody woken without cause, signals to ALL waiters
     exactly once, timers never early, masks inside / outside select, ...);
     liveness (a sent signal reaches its waiter, expired timers fire, readers
-    of readable pipes are woken, woken tasks are polled) under fairness with
-    the run-loop discipline; nine named wrong variants (negative
+    of readable pipes are woken, woken tasks are polled, systems of sleeping
+    and yielding tasks terminate) under fairness with the run-loop discipline; nine named wrong variants (negative
     configurations) must each be refuted by the property named below.
  2. spec -> impl: the same TLC runs print, per distinct quiescent state, the
     history leading to it (task scripts, driver calls, external events at
@@ -42,10 +42,10 @@ PID = "G17"
 PKG = "yv-g17"
 
 TIERS = {
-    "quick": dict(gen=["sig_q", "rw_q", "tmr_q", "mix_q", "rw2_q"], live="MC_ConcSelect_live_q.cfg",
+    "quick": dict(gen=["sig_q", "rw_q", "tmr_q", "mix_q", "rw2_q"], live=["MC_ConcSelect_live_q.cfg", "MC_ConcSelect_term_q.cfg"],
                   nrandom=1500, shards=4, timeout=300, coverage=False),
     "thorough": dict(gen=["sig_q", "rw_q", "tmr_q", "mix_q", "rw2_q", "sig_t", "rw_t", "tmr_t", "mix_t", "rw2_t"],
-                     live="MC_ConcSelect_live_t.cfg", nrandom=40000, shards=8, timeout=1500, coverage=True),
+                     live=["MC_ConcSelect_live_t.cfg", "MC_ConcSelect_term_q.cfg"], nrandom=40000, shards=8, timeout=1500, coverage=True),
 }
 
 # wrong variant -> the property that must refute it
@@ -215,7 +215,7 @@ def run(tier):
     # 1a + 2. bounded models: model checking and replay;  1b. liveness and the negative configurations;
     # 3b. trace validation - all side by side
     gfuts = [pool.submit(_gen_and_replay, name, wd, T, rep, T["coverage"] and name == "mix_q") for name in T["gen"]]
-    live = pool.submit(vlib.tlc, "MC_ConcSelect", T["live"], workers=2, timeout=T["timeout"])
+    lives = [(c, pool.submit(vlib.tlc, "MC_ConcSelect", c, workers=2, timeout=T["timeout"])) for c in T["live"]]
     vfut = pool.submit(_validate, rep, trace, T, totals)
     negs = [pool.submit(_negative, v) for v in sorted(NEGATIVE)]
     gens = [f.result() for f in gfuts]
@@ -230,11 +230,14 @@ def run(tier):
     os.remove(trace)
 
     # 1b. results
-    lr = live.result()
-    vlib.tlc_must_pass(lr, f"liveness {T['live']}")
-    totals["states"] += lr.distinct
-    totals["transitions"] += lr.generated
-    vlib.log(f"[mc] {T['live']}: {lr.distinct} states, 4 liveness properties hold under fairness ({lr.wall:.1f}s)")
+    live_states = 0
+    for c, f in lives:
+        lr = f.result()
+        vlib.tlc_must_pass(lr, f"liveness {c}")
+        totals["states"] += lr.distinct
+        totals["transitions"] += lr.generated
+        live_states += lr.distinct
+        vlib.log(f"[mc] {c}: {lr.distinct} states, the liveness properties hold under fairness ({lr.wall:.1f}s)")
     refuted = {}
     for f in negs:
         variant, prop, rn = f.result()
@@ -280,7 +283,7 @@ def run(tier):
                               "external events, 2-3 select/peek calls); histories of every distinct quiescent state (_q) or of "
                               "the states where a budget is exhausted (_t); random beyond",
         "models": [{k: g[k] for k in ("name", "states", "transitions", "histories")} for g in gens],
-        "liveness_states": lr.distinct,
+        "liveness_states": live_states,
         "wrong_variants_refuted": refuted,
         "model_actions_exercised": acts,
         "histories_replayed": histories,
